@@ -267,11 +267,34 @@ def w_lazy(w, cfg):
                           "config": w.config, "time": round(dt, 4)})
 
 
+class _DT:
+    """numpy dtype object of the cube: .kind / .name / .itemsize, accepted by astype()."""
+
+    def __init__(self, name):
+        self.dtype_name = name
+        self.__name__ = name
+
+    def pysym_getattr(self, it, st, attr):
+        n = self.dtype_name
+        if attr == "kind":
+            return "u" if n.startswith("uint") else ("i" if n.startswith("int") else ("f" if n.startswith("float") else "b"))
+        if attr == "name":
+            return n
+        if attr == "itemsize":
+            return int("".join(ch for ch in n if ch.isdigit())) // 8
+        if attr == "type":
+            return self
+        raise Unsupported(f"dtype.{attr}")
+
+    def __str__(self):
+        return self.dtype_name
+
+
 class _LazyCube:
     """dask-backed DataArray contract for PixelAlgorithms.autocorr: dims, attrs, chunks (time chunked into k blocks), chunk()."""
 
-    def __init__(self, dims, attrs, tchunks, log):
-        self.dims, self.attrs, self.tchunks, self.log = tuple(dims), attrs, tuple(tchunks), log
+    def __init__(self, dims, attrs, tchunks, log, dtype="int16"):
+        self.dims, self.attrs, self.tchunks, self.log, self.dtype = tuple(dims), attrs, tuple(tchunks), log, dtype
 
     def pysym_getattr(self, it, st, attr):
         from pysym.lib import native
@@ -279,6 +302,8 @@ class _LazyCube:
             return self.dims
         if attr == "attrs":
             return self.attrs
+        if attr == "dtype":
+            return _DT(self.dtype)
         if attr == "chunks":
             return tuple(self.tchunks if d == "time" else (2,) for d in self.dims)
         if attr == "data":
@@ -290,7 +315,7 @@ class _LazyCube:
                 spec = dict(spec or {}, **kw)
                 self.log.append(("chunk", spec))
                 if spec.get("time") in (-1, None) and "time" in spec:
-                    return _LazyCube(self.dims, self.attrs, (sum(self.tchunks),), self.log)
+                    return _LazyCube(self.dims, self.attrs, (sum(self.tchunks),), self.log, self.dtype)
                 raise Unsupported(f"chunk({spec})")
             return native(chunk)
         raise Unsupported(f"DataArray.{attr}")
@@ -307,7 +332,8 @@ def w_accessor(w, cfg):
     log, calls = [], []
     nd = z3.Int("nd")
     dims = ("time", "y", "x") if lead else ("y", "x", "time")
-    cube = _LazyCube(dims, {"nodata": nd}, tuple([3] * k), log)
+    cdt = cfg.get("dtype", "int16")
+    cube = _LazyCube(dims, {"nodata": nd}, tuple([3] * k), log, cdt)
     cls = it.get_function("hdc.algo.accessors", "PixelAlgorithms")
     cls.link_bases(it)
     inst = Instance(cls)
@@ -329,21 +355,34 @@ def w_accessor(w, cfg):
     it.lib_overrides["warnings.warn"] = native(lambda it_, st_, *a, **kk: None)
     res = it.call_function(st, cls.methods["autocorr"], [inst])
     w.res.encoded.update(it.encoded)
-    tag = f"autocorr[dask, time {'first' if lead else 'last'}, {k} time chunk(s)]"
     ok = len(calls) == 1
+    passed = None
     if ok and lead:
         kind, fname, args, kw = calls[0]
         blk = args[0][1] if args and isinstance(args[0], tuple) and args[0][0] == "dask-array" else None
         ok = (kind == "map_blocks" and fname == "autocorr_tyx" and blk is not None and len(blk.tchunks) == 1 and blk.tchunks[0] == 3 * k
-              and kw.get("drop_axis") in (0, [0], (0,)) and str(kw.get("dtype")) == "float32" and len(args) >= 2 and V.same(args[1], nd)
+              and kw.get("drop_axis") in (0, [0], (0,)) and str(kw.get("dtype")) == "float32" and len(args) >= 2
               and isinstance(res, tuple) and res[0] == "DataArray" and res[2] == ("y", "x"))
+        passed = args[1] if len(args) >= 2 else None
     elif ok:
         kind, fname, args, kw = calls[0]
-        ok = (kind == "apply_ufunc" and fname == "autocorr" and args and args[0] is cube and len(args) >= 2 and V.same(args[1], nd)
+        ok = (kind == "apply_ufunc" and fname == "autocorr" and args and args[0] is cube and len(args) >= 2
               and [list(x) for x in kw.get("input_core_dims", [])] == [["time"], []] and kw.get("dask") == "parallelized"
               and [str(x) for x in kw.get("output_dtypes", [])] == ["float32"])
-    w.discharge(f"{tag}.block_function_sees_the_whole_time_axis", [nd >= -32768, nd <= 32767], z3.BoolVal(bool(ok)),
-                concretize=lambda m: {"accessor_dask": True, "tchunks": k, "lead": lead, "nodata": C.model_value(m, nd)})
+        passed = args[1] if len(args) >= 2 else None
+    tag = f"autocorr[dask {cdt}, time {'first' if lead else 'last'}, {k} time chunk(s)]"
+    facts = [nd >= -70000, nd <= 70000]        # the nodata attribute is NOT bound to the cube's dtype (uint8 cubes with nodata -1 / -9999 exist)
+
+    def conc(m):
+        return {"accessor_dask": True, "tchunks": k, "lead": lead, "nodata": C.model_value(m, nd), "dtype": cdt}
+    w.discharge(f"{tag}.block_function_sees_the_whole_time_axis", facts, z3.BoolVal(bool(ok)), concretize=conc)
+    if ok and calls:
+        # the marker handed to the kernel is the attribute itself, for every value of it (a cast to the cube's dtype wraps)
+        try:
+            same = V.to_real(V.num_of_bool(passed)) == z3.ToReal(nd)
+        except Exception:  # noqa
+            same = z3.BoolVal(False)
+        w.discharge(f"{tag}.kernel_receives_the_nodata_attribute_unchanged", facts, same, concretize=conc, sample=True)
 
 
 def worker(w, cfg):
@@ -373,12 +412,16 @@ def configs(tier):
     for k in (1, 2, 3):
         cf.append({"kind": "accessor", "tchunks": k, "lead": True})
     cf.append({"kind": "accessor", "tchunks": 1, "lead": False})
+    for cdt in ("uint8", "int32"):
+        cf.append({"kind": "accessor", "tchunks": 2, "lead": True, "dtype": cdt})
+        cf.append({"kind": "accessor", "tchunks": 1, "lead": False, "dtype": cdt})
     return cf
 
 
 def replay_candidate(chk, c):
     if c["input"].get("accessor_dask"):
-        r = chk.replayer.call("c12_autocorr_dask", tchunks=c["input"]["tchunks"], lead=c["input"]["lead"], nodata=c["input"]["nodata"])
+        r = chk.replayer.call("c12_autocorr_dask", tchunks=c["input"]["tchunks"], lead=c["input"]["lead"], nodata=c["input"]["nodata"],
+                              dtype=c["input"].get("dtype", "int16"))
     elif c["input"].get("lazy"):
         r = chk.replayer.call("c12_lazy", threads=c["input"]["threads"], schedule=c["input"]["schedule"])
     else:
